@@ -667,11 +667,24 @@ def exec_case(mt, case):
     except Exception as e:
         return [["classraise", type(e).__name__]] * len(case["ops"])
     objs = [clss[c]() for c in case["insts"]]
+    isbound = set()
     kinds = [{d["attr"]: d["kind"] for d in case["classes"][c]} for c in case["insts"]]
     obs = []
     for op in case["ops"]:
         try:
+            if op[0] in ("pyw", "pyr") and (op[1] not in isbound or op[2].startswith("_")):
+                # not a bound tunable: the property leaves the behaviour open -> masked
+                try:
+                    if op[0] == "pyw":
+                        setattr(objs[op[1]], op[2], to_py(op[3]))
+                    else:
+                        getattr(objs[op[1]], op[2])
+                except Exception:
+                    pass
+                obs.append(["any"])
+                continue
             if op[0] == "setup":
+                isbound.add(op[1])
                 keep.append(dict(objs[op[1]].__dict__))          # old entries stay published
                 try:
                     if op[2] == "components" and len(obs) % 2:
@@ -718,6 +731,8 @@ def obs_to_coq(o):
         return "(OVal %s)" % to_coq(o[1])
     if o[0] == "err":
         return "OErr"
+    if o[0] == "any":
+        return "OAny"
     if o[0] == "nt":
         if o[1] is None:
             return "(ONt None)"
@@ -798,8 +813,7 @@ def oracle_case(case, obs):
         elif op[0] == "pyw":
             e = bind.get(op[1], {}).get(op[2])
             if e is None:
-                if o[0] != "err":
-                    return fail("c09-unbound-write", "write to an unbound tunable did not raise")
+                pass                                 # not bound: the property does not say
             else:
                 if o[0] != "wrote":
                     return fail("c09-write-raises", "attribute assignment raised %r" % (o,))
@@ -807,8 +821,7 @@ def oracle_case(case, obs):
         elif op[0] == "pyr":
             e = bind.get(op[1], {}).get(op[2])
             if e is None:
-                if o[0] != "err":
-                    return fail("c09-unbound-read", "read of an unbound tunable returned %r" % (o,))
+                pass
             else:
                 want = topics[e[0]][1]
                 if o != ["val", want]:
